@@ -578,7 +578,7 @@ def gen_cases(tier, rng):
                 cases.append(level_case(seq, (0, alpha[1], alpha[2], 10, alpha[3] - 1)[n % 5], n, 'exh-%s' % '-'.join(map(str, alpha)))); n += 1
     nexh = len(cases)
     # (b) random histories
-    for _ in range(500 if tier == 'quick' else 8000):
+    for _ in range(500 if tier == 'quick' else 6000):
         cases.append(gen_random_case(rng))
     for _ in range(12 if tier == 'quick' else 150):
         cases.append(gen_random_case(rng, big=True))
